@@ -2,12 +2,11 @@
 from __future__ import annotations
 
 import ast
-import itertools
 
-from sa.astx import call_name, dotted, lin_expect, lincmp, src, walk_local
+from sa.astx import call_name, dotted, src, walk_local
 from sa.effects import class_accesses
 from sa.selftest import Mutant, Silent
-from sa.props._lib_k import LEVELS, MiniInterp, Nonterminating, handler_names, protection
+from sa.props._lib_k import LEVELS, Interp, Nonterminating, freeze, protection
 
 PROPERTY = "C57"
 OBS = "logger/_observer.py"
@@ -177,81 +176,121 @@ def check_publisher(ctx):
                   "an observer can be registered twice and would then receive every event twice")
 
 
+def _freeze_obj(o):
+    return freeze(o.attrs)
+
+
+def check_filter_histories(ctx):
+    """Concrete interpretation of LogLevelFilterPredicate over every short history of set / clear / query."""
+    import copy
+    import types
+    mod = ctx.mod(FIL)
+    q = QF + "LogLevelFilterPredicate.logLevelForNamespace"
+    qc = QF + "LogLevelFilterPredicate.__call__"
+
+    class InvalidLogLevelError(Exception):
+        pass
+    levels = types.SimpleNamespace(debug=0, info=1, warn=2, iterconstants=lambda: [0, 1, 2])
+    results = types.SimpleNamespace(yes="yes", no="no", maybe="maybe")
+    it = Interp({"LogLevel": levels, "InvalidLogLevelError": InvalidLogLevelError, "PredicateResult": results}, budget=3000000)
+    it.load(mod, only={"LogLevelFilterPredicate"})
+    ctx.need("LogLevelFilterPredicate" in it.globals, "class LogLevelFilterPredicate")
+    cls = it.globals["LogLevelFilterPredicate"]
+    for meth in ("logLevelForNamespace", "setLogLevelForNamespace", "clearLogLevels", "__call__"):
+        ctx.func(FIL, f"LogLevelFilterPredicate.{meth}")
+    obj0 = cls()
+    default = 1
+    chain = ["a", "a.b", "a.b.c"]
+    queries = ["", "a", "a.b", "a.b.c", "a.b.c.d", "ab"]
+    ops = [("set", ns, lv) for ns in [""] + chain for lv in (0, 2)] + [("clear",)] + [("query", ns) for ns in queries]
+
+    def oracle(conf, ns):
+        if not ns:
+            return conf[""]
+        parts = ns.split(".")
+        for n in range(len(parts), 0, -1):
+            p = ".".join(parts[:n])
+            if p in conf:
+                return conf[p]
+        return conf[""]
+
+    def clone(o):
+        o2 = copy.copy(o)
+        o2.attrs = copy.deepcopy(o.attrs)
+        return o2
+
+    def call(o, meth, *args):
+        try:
+            return it.getattr_(o, meth)(*args)
+        except Nonterminating:
+            return "does not terminate"
+        except (KeyError, IndexError, TypeError, ValueError, AttributeError) as e:
+            return f"raises {type(e).__name__}: {e}"
+    bad_q, bad_c = {}, {}
+    start = (obj0, {"": default}, ())
+    seen = {(_freeze_obj(obj0), freeze(start[1]))}
+    frontier = [start]
+    n_hist = n_eval = 0
+    for depth in range(0, 5):
+        nxt = []
+        for o, conf, hist in frontier:
+            n_hist += 1
+            # decisions of __call__ in this state (evaluated on copies)
+            for ns in chain + ["a.b.c.d"]:
+                for lv in (0, 1, 2):
+                    got = call(clone(o), "__call__", {"log_level": lv, "log_namespace": ns})
+                    n_eval += 1
+                    want = "no" if lv < oracle(conf, ns) else "maybe"
+                    if got != want:
+                        bad_c.setdefault(ns, (hist, lv, oracle(conf, ns), got))
+            for op in ops:
+                o2, conf2 = clone(o), dict(conf)
+                if op[0] == "set":
+                    r = call(o2, "setLogLevelForNamespace", op[1], op[2])
+                    conf2[op[1]] = op[2]
+                    if r is not None:
+                        bad_q.setdefault(op[1], (hist + (op,), "-", r))
+                elif op[0] == "clear":
+                    r = call(o2, "clearLogLevels")
+                    conf2 = {"": default}
+                    if r is not None:
+                        bad_q.setdefault("<clear>", (hist + (op,), "-", r))
+                else:
+                    got = call(o2, "logLevelForNamespace", op[1])
+                    n_eval += 1
+                    want = oracle(conf, op[1])
+                    if got != want:
+                        bad_q.setdefault(op[1], (hist + (op,), want, got))
+                        continue
+                key = (_freeze_obj(o2), freeze(conf2))
+                if key not in seen and depth < 4:
+                    seen.add(key)
+                    nxt.append((o2, conf2, hist + (op,)))
+        frontier = nxt
+
+    def show(h):
+        return " ; ".join(f"set({x[1]!r},{x[2]})" if x[0] == "set" else ("clear()" if x[0] == "clear" else f"query({x[1]!r})") for x in h)
+    for ns in queries:
+        b = bad_q.get(ns)
+        ctx.check(b is None, "filter/most-specific-prefix", f"{q} | namespace={ns!r}",
+                  (f"after {show(b[0])} the level for {ns!r} must be that of its most specific configured prefix ({b[1]}) but the lookup yields {b[2]!r}" if b else ""),
+                  detail="all histories of length <= 5 agree with the most-specific-configured-prefix oracle")
+    for k in ("<clear>",):
+        if k in bad_q:
+            ctx.violation("filter/most-specific-prefix", f"{q} | {k}", f"configuration call fails: {bad_q[k][2]} after {show(bad_q[k][0])}")
+    for ns in chain + ["a.b.c.d"]:
+        b = bad_c.get(ns)
+        ctx.check(b is None, "filter/level-decision", f"{qc} | namespace={ns!r}",
+                  (f"after {show(b[0])} an event of level {b[1]} in {ns!r} (configured threshold {b[2]}) is answered {b[3]!r}; it must be "
+                   f"{'no' if b[1] < b[2] else 'maybe'} (pass exactly when eventLevel >= threshold)" if b else ""),
+                  detail="decision == (eventLevel >= most specific configured level) in every explored state")
+    ctx.extra["filter_states_explored"] = len(seen)
+    ctx.extra["filter_evaluations"] = n_eval
+
+
 def check_filter(ctx):
     cls = ctx.cls(FIL, "LogLevelFilterPredicate")
     mod = ctx.mod(FIL)
-    f = ctx.func(FIL, "LogLevelFilterPredicate.logLevelForNamespace")
-    q = QF + "LogLevelFilterPredicate.logLevelForNamespace"
-    par = f.args.args[1].arg
-    table = "self._logLevelsByNamespace"
-    full = ["a", "b", "c", "d"]
-    prefixes = [".".join(full[:i]) for i in range(1, 5)]
-    n_eval = 0
-    for depth in range(0, 5):
-        ns = ".".join(full[:depth])
-        bad = None
-        own = prefixes[:depth]
-        for r in range(0, 5):
-            for combo in itertools.combinations(prefixes, r):
-                conf = set(combo) | {""}
-                want = next((p for p in reversed(own) if p in conf), "")
-                it = MiniInterp(f, table, conf)
-                try:
-                    got = it.run({par: ns})
-                except Nonterminating:
-                    got = "does not terminate"
-                n_eval += 1
-                if got != ("level", want) and bad is None:
-                    bad = (sorted(conf), want, got)
-        ctx.check(bad is None, "filter/most-specific-prefix", f"{q} | namespace={ns!r}",
-                  (f"with levels configured for {bad[0]} the lookup for {ns!r} should use the entry {bad[1]!r} but yields {bad[2]!r}" if bad else ""),
-                  detail="16 configurations agree with the most-specific-configured-prefix rule")
-    ctx.extra["prefix_lookup_evaluations"] = n_eval
-
-    # __call__
-    c = ctx.func(FIL, "LogLevelFilterPredicate.__call__")
-    g = ctx.cfg(c)
-    qc = QF + "LogLevelFilterPredicate.__call__"
-    ev = c.args.args[1].arg
-
-    def var_from(pred):
-        for st in walk_local(c):
-            if isinstance(st, ast.Assign) and len(st.targets) == 1 and isinstance(st.targets[0], ast.Name) and pred(st.value):
-                return st.targets[0].id, st
-        return None, None
-
-    def is_get(key):
-        return lambda v: isinstance(v, ast.Call) and call_name(v) == f"{ev}.get" and v.args and isinstance(v.args[0], ast.Constant) and v.args[0].value == key
-    lvl, _ = var_from(is_get("log_level"))
-    nsv, _ = var_from(is_get("log_namespace"))
-    nlv, nl_st = var_from(lambda v: isinstance(v, ast.Call) and call_name(v) == "self.logLevelForNamespace")
-    ctx.need(lvl and nsv and nlv, "locals for event level, namespace and namespace level in LogLevelFilterPredicate.__call__")
-    ctx.check(len(nl_st.value.args) == 1 and src(nl_st.value.args[0]) == nsv, "filter/looks-up-event-namespace", ctx.construct(qc, nl_st),
-              "the threshold is not looked up for the event's own log_namespace")
-    nl_id = g.ids_of(nl_st)
-    rets = g.ids(lambda n: n.kind == "stmt" and isinstance(n.ast, ast.Return))
-    want_no = lin_expect({nlv: 1, lvl: -1}, 1)
-    want_pass = lin_expect({lvl: 1, nlv: -1}, 0)
-    n_cmp = 0
-    for r in rets:
-        if not g.path(nl_id, [r], strict=True):
-            continue  # decided before the threshold is known (missing level / namespace)
-        val = (dotted(g.node(r).ast.value) or "").split(".")[-1]
-        forms = [lincmp(g.node(t).ast, negate=(lab == "F")) for t, lab in g.edge_guards(r)]
-        forms = [x for x in forms if x is not None]
-        if val == "no":
-            n_cmp += 1
-            ctx.check(want_no in forms, "filter/level-comparison", ctx.construct(qc, g.node(r).ast),
-                      "the event is rejected under a condition other than eventLevel < namespaceLevel (e.g. events exactly at the configured level are dropped)",
-                      detail="guard normalises to namespaceLevel - eventLevel >= 1")
-        else:
-            n_cmp += 1
-            ctx.check(want_pass in forms, "filter/level-comparison", ctx.construct(qc, g.node(r).ast),
-                      "the event passes although eventLevel >= namespaceLevel is not established (events below the configured level get through)",
-                      detail="guard normalises to eventLevel - namespaceLevel >= 0")
-            ctx.check(val == "maybe", "filter/level-comparison", ctx.construct(qc, g.node(r).ast) + " | verdict", "a sufficient level must answer `maybe` (let other predicates decide)")
-    ctx.check(n_cmp >= 2, "filter/level-comparison", qc, "__call__ no longer has both a rejecting and a passing exit after the level lookup")
-
     # table writers
     acc = class_accesses(mod, cls, {"_logLevelsByNamespace"}, receivers={"self"})
     for a in acc:
@@ -382,10 +421,31 @@ def check_buffer(ctx):
 
 
 def check(ctx):
-    check_publisher(ctx)
-    check_filter(ctx)
-    check_buffer(ctx)
+    with ctx.section("LogPublisher"):
+        check_publisher(ctx)
+    with ctx.section("LogLevelFilterPredicate histories"):
+        check_filter_histories(ctx)
+    with ctx.section("filter structure"):
+        check_filter(ctx)
+    with ctx.section("LimitedHistoryLogObserver"):
+        check_buffer(ctx)
 
+
+# a memo of resolved prefix lookups added to LogLevelFilterPredicate (shared by a mutant and a silent variant)
+_E_INIT = (FIL, "        self._logLevelsByNamespace: Dict[str, NamedConstant] = {}\n        self.defaultLogLevel",
+           "        self._logLevelsByNamespace: Dict[str, NamedConstant] = {}\n        self._memo: Dict[str, NamedConstant] = {}\n        self.defaultLogLevel")
+_E_LOOKUP_OLD = ("        segments = namespace.split(\".\")\n        index = len(segments) - 1\n\n        while index > 0:\n            namespace = \".\".join(segments[:index])\n"
+                 "            if namespace in self._logLevelsByNamespace:\n                return self._logLevelsByNamespace[namespace]\n            index -= 1\n\n"
+                 "        return self._logLevelsByNamespace[\"\"]\n")
+_E_LOOKUP_NEW = ("        if namespace in self._memo:\n            return self._memo[namespace]\n        found = self._logLevelsByNamespace[\"\"]\n"
+                 "        segments = namespace.split(\".\")\n        for index in range(len(segments) - 1, 0, -1):\n            prefix = \".\".join(segments[:index])\n"
+                 "            if prefix in self._logLevelsByNamespace:\n                found = self._logLevelsByNamespace[prefix]\n                break\n"
+                 "        self._memo[namespace] = found\n        return found\n")
+_E_CLEAR = (FIL, "        self._logLevelsByNamespace.clear()\n", "        self._logLevelsByNamespace.clear()\n        self._memo.clear()\n")
+_E_SET_OLD = "        if namespace:\n            self._logLevelsByNamespace[namespace] = level\n        else:\n            self._logLevelsByNamespace[\"\"] = level\n"
+_E_SET_STALE = ("        if namespace:\n            self._logLevelsByNamespace[namespace] = level\n            self._memo.pop(namespace, None)\n"
+                "        else:\n            self._logLevelsByNamespace[\"\"] = level\n            self._memo.clear()\n")
+_E_SET_FLUSH = "        self._memo.clear()\n" + _E_SET_OLD
 
 MUTANTS = [
     Mutant("observer-call-outside-try", OBS, "            try:\n                observer(event)\n            except Exception:\n                brokenObservers.append((observer, Failure()))\n",
@@ -404,8 +464,8 @@ MUTANTS = [
     Mutant("add-observer-without-dedupe", OBS, "        if observer not in self._observers:\n            self._observers.append(observer)", "        self._observers.append(observer)",
            expect_rule="publisher/single-registration"),
     Mutant("failure-not-recorded", OBS, "                brokenObservers.append((observer, Failure()))\n", "                pass\n", expect_rule="publisher/failure-recorded"),
-    Mutant("filter-le", FIL, "        if eventLevel < namespaceLevel:", "        if eventLevel <= namespaceLevel:", expect_rule="filter/level-comparison"),
-    Mutant("filter-operands-swapped", FIL, "        if eventLevel < namespaceLevel:", "        if namespaceLevel < eventLevel:", expect_rule="filter/level-comparison"),
+    Mutant("filter-le", FIL, "        if eventLevel < namespaceLevel:", "        if eventLevel <= namespaceLevel:", expect_rule="filter/level-decision"),
+    Mutant("filter-operands-swapped", FIL, "        if eventLevel < namespaceLevel:", "        if namespaceLevel < eventLevel:", expect_rule="filter/level-decision"),
     Mutant("prefix-loop-counts-up", FIL, "        index = len(segments) - 1\n\n        while index > 0:\n            namespace = \".\".join(segments[:index])\n            if namespace in self._logLevelsByNamespace:\n                return self._logLevelsByNamespace[namespace]\n            index -= 1\n",
            "        index = 1\n\n        while index < len(segments):\n            namespace = \".\".join(segments[:index])\n            if namespace in self._logLevelsByNamespace:\n                return self._logLevelsByNamespace[namespace]\n            index += 1\n",
            expect_rule="filter/most-specific-prefix"),
@@ -415,6 +475,8 @@ MUTANTS = [
            expect_rule="filter/most-specific-prefix"),
     Mutant("prefix-decrement-dropped", FIL, "                return self._logLevelsByNamespace[namespace]\n            index -= 1\n", "                return self._logLevelsByNamespace[namespace]\n            index -= 0\n",
            expect_rule="filter/most-specific-prefix"),
+    Mutant("prefix-memo-keeps-descendants-stale", FIL, _E_LOOKUP_OLD, _E_LOOKUP_NEW, expect_rule="filter/most-specific-prefix",
+           more=[_E_INIT, _E_CLEAR, (FIL, _E_SET_OLD, _E_SET_STALE)]),
     Mutant("verdicts-swapped", FIL, "        if result == PredicateResult.yes:\n            return True\n        if result == PredicateResult.no:\n            return False\n",
            "        if result == PredicateResult.yes:\n            return False\n        if result == PredicateResult.no:\n            return True\n", expect_rule="filter/predicate-verdicts"),
     Mutant("history-appendleft", BUF, "        self._buffer.append(event)", "        self._buffer.appendleft(event)", expect_rule="history/appends-at-the-end"),
@@ -429,5 +491,8 @@ SILENT = [
     Silent("prefix-loop-down-to-zero", FIL, "        while index > 0:", "        while index >= 0:"),
     Silent("publisher-renamed-locals", OBS, "        for observer in self._observers:\n            if trace is not None:\n                trace(observer)\n\n            try:\n                observer(event)\n            except Exception:\n                brokenObservers.append((observer, Failure()))\n",
            "        for obs in self._observers:\n            if trace is not None:\n                trace(obs)\n            try:\n                obs(event)\n            except BaseException:\n                brokenObservers.append((obs, Failure()))\n"),
+    Silent("prefix-memo-flushed-on-every-change", FIL, _E_LOOKUP_OLD, _E_LOOKUP_NEW, more=[_E_INIT, _E_CLEAR, (FIL, _E_SET_OLD, _E_SET_FLUSH)]),
+    Silent("level-decision-as-conditional-expression", FIL, "        if eventLevel < namespaceLevel:\n            return PredicateResult.no\n\n        return PredicateResult.maybe",
+           "        return PredicateResult.no if eventLevel < namespaceLevel else PredicateResult.maybe"),
     Silent("history-positional-deque", BUF, "deque(maxlen=size)", "deque([], size)"),
 ]
